@@ -156,6 +156,9 @@ def rich_world(rng, d, unresolvable=True):
         "eref": {"$ref": H + "embedded.json"},
         "emb2": {"items": {idk: "http://other.example/x/emb2.json", "type": "integer"}},
         "eref2": {"$ref": "http://other.example/x/emb2.json"},
+        # a nested id that cannot be made a base URI (the call that reaches it fails - C03's recorded finding); the calls
+        # AFTER it on the same validator must be what a fresh validator gives
+        "badid": {"items": {idk: "http://[", "type": "integer"}},
         "sa": {"$ref": R.STORE_DIR + "v1/doc.json"},
         "sb": {"$ref": R.STORE_DIR + "v2/doc.json"},
         "na": {idk: R.STORE_DIR + "v1/", "properties": {"w": {"$ref": "item.json"}, "v": {"$ref": "doc.json#/definitions/item"}}},
@@ -221,6 +224,8 @@ def rich_world(rng, d, unresolvable=True):
                 out[n] = {"v": ig2.any(1)}
             elif n == "s":
                 out[n] = [ig2.any(1), ig2.any(1)]
+            elif n == "badid":
+                out[n] = rng.choice([[], [1], 5])
             elif n in ("emb", "eref", "eref2"):
                 out[n] = rng.choice([1, "s", None, 2.5])
             elif n == "emb2":
@@ -348,6 +353,10 @@ def outcome(fn):
         return ("ValidationError", fp(e))
     except RecursionError:
         return ("RecursionError", None)
+    except ValueError as e:
+        # an id urllib cannot parse (recorded finding of C03): not judged here, but what comes AFTER it on the same
+        # validator is
+        return ("ValueError", None)
 
 
 def perform(v, op):
